@@ -414,10 +414,18 @@ func oracle(r *h.Run, sc scenario, o *outcome, sandbox string) {
 			}
 		}
 	}
-	// 4. excluded entries survive with their ancestors
+	// 4. excluded entries survive with their ancestors.  "Matching" is judged on the part of the path the call is
+	// responsible for: the base name of the root itself and every component below it (the repository's own test
+	// TestRemoveWithExclusion pins that a pattern matching only the root's name does not protect the root's content).
 	if len(pats) > 0 {
 		for p, b := range o.Before {
-			if !under(sc.Root, p) || !matches(p, pats) {
+			if !under(sc.Root, p) {
+				continue
+			}
+			if p != sc.Root && !matches(strings.TrimPrefix(p, sc.Root+"/"), pats) {
+				continue
+			}
+			if p == sc.Root && !matches(filepath.Base(sc.Root), pats) {
 				continue
 			}
 			a, ok := o.After[p]
@@ -426,7 +434,7 @@ func oracle(r *h.Run, sc scenario, o *outcome, sandbox string) {
 				continue
 			}
 			for q := filepath.ToSlash(filepath.Dir(p)); q != "." && q != "/"; q = filepath.ToSlash(filepath.Dir(q)) {
-				if _, ok := o.After[q]; !ok {
+				if a, ok := o.After[q]; !ok || a.Kind != "d" {
 					r.Fail("excluded-ancestor-lost:"+cls, fmt.Sprintf("%s(%q, %q): ancestor %q of the excluded %q was removed", sc.Op, sc.Root, pats, q, p), sc)
 				}
 			}
@@ -436,27 +444,102 @@ func oracle(r *h.Run, sc scenario, o *outcome, sandbox string) {
 
 // ---- Coq case ----
 
-func coqPath(p string) string {
+// interner gives every distinct path component of one case a short let-bound identifier (the literal lists of
+// numbers dominate the time Coq needs to read a case file)
+type interner struct {
+	ids   map[string]string
+	order []string
+}
+
+func (in *interner) name(c string) string {
+	if id, ok := in.ids[c]; ok {
+		return id
+	}
+	id := fmt.Sprintf("n%d", len(in.order))
+	in.ids[c] = id
+	in.order = append(in.order, c)
+	return id
+}
+
+func (in *interner) path(p string) string {
 	if p == "" {
 		return "[]"
 	}
 	parts := strings.Split(p, "/")
 	ts := make([]string, len(parts))
 	for i, c := range parts {
-		ts[i] = h.Str(c)
+		ts[i] = in.name(c)
 	}
 	return h.List(ts)
 }
 
-func coqFs(m map[string]snapEntry, ids map[string]int) (string, bool) {
-	keys := make([]string, 0, len(m))
-	for k := range m {
+func (in *interner) wrap(term string) string {
+	var b strings.Builder
+	b.WriteString("(")
+	for _, c := range in.order {
+		fmt.Fprintf(&b, "let %s := %s in ", in.ids[c], h.Str(c))
+	}
+	b.WriteString(term + ")")
+	return b.String()
+}
+
+// gcDeterministic: garbage collection handles the entries of a directory concurrently, so whether a link whose target
+// lies INSIDE the collected tree still resolves when it is examined depends on the schedule.  Such cases are judged by
+// the oracle only; the (sequential) model is compared on the others.
+func gcDeterministic(sc scenario, before map[string]snapEntry) bool {
+	for p, e := range before {
+		if e.Kind != "l" || !under(sc.Root, p) {
+			continue
+		}
+		if e.Target == "<outside-sandbox>" {
+			return false
+		}
+		t := e.Target
+		if under(sc.Root, t) {
+			// harmless only if it can never resolve: the first component below the root that is looked up does not exist
+			rest := strings.TrimPrefix(strings.TrimPrefix(t, sc.Root), "/")
+			first := sc.Root
+			if rest != "" {
+				first = sc.Root + "/" + strings.Split(rest, "/")[0]
+			}
+			if _, ok := before[first]; ok || rest == "" {
+				return false
+			}
+			continue
+		}
+		parts := strings.Split(t, "/")
+		for i := 1; i <= len(parts); i++ {
+			if b, ok := before[strings.Join(parts[:i], "/")]; ok && b.Kind == "l" {
+				return false
+			}
+		}
+	}
+	return true
+}
+
+func emitCase(r *h.Run, sc scenario, o *outcome) {
+	if opClass(sc.Op) == "gc" && !gcDeterministic(sc, o.Before) {
+		r.Count("gc-case-schedule-dependent(oracle only)")
+		return
+	}
+	if matches(sc.Root, effectivePatterns(sc)) {
+		// whether a pattern that matches the root's own path protects the content is decided by how the patterns are handed
+		// down (defect D11, repaired under C08); the model is compared on the other cases
+		r.Count("root-matches-pattern(oracle only)")
+		return
+	}
+	in := &interner{ids: map[string]string{}}
+	cids := map[string]int{}
+	keys := make([]string, 0, len(o.Before))
+	for k := range o.Before {
 		keys = append(keys, k)
 	}
 	sort.Strings(keys)
 	ts := make([]string, 0, len(keys))
-	for _, k := range keys {
-		e := m[k]
+	var removed []string
+	same := true
+	for i, k := range keys {
+		e := o.Before[k]
 		var t string
 		switch e.Kind {
 		case "d":
@@ -465,29 +548,29 @@ func coqFs(m map[string]snapEntry, ids map[string]int) (string, bool) {
 			id := 0
 			if e.Size > 0 {
 				var ok bool
-				if id, ok = ids[e.Data]; !ok {
-					id = len(ids) + 1
-					ids[e.Data] = id
+				if id, ok = cids[e.Data]; !ok {
+					id = len(cids) + 1
+					cids[e.Data] = id
 				}
 			}
 			t = fmt.Sprintf("(EFile %d)", id)
 		default:
 			if e.Target == "<outside-sandbox>" {
-				return "", false
+				return
 			}
-			t = "(ELink " + coqPath(e.Target) + ")"
+			t = "(ELink " + in.path(e.Target) + ")"
 		}
-		ts = append(ts, "("+coqPath(k)+", "+t+")")
+		ts = append(ts, "("+in.path(k)+", "+t+")")
+		if a, ok := o.After[k]; !ok {
+			removed = append(removed, fmt.Sprintf("%d%%N", i))
+		} else if a != e {
+			same = false
+		}
 	}
-	return h.List(ts), true
-}
-
-func emitCase(r *h.Run, sc scenario, o *outcome) {
-	ids := map[string]int{}
-	fb, ok1 := coqFs(o.Before, ids)
-	fa, ok2 := coqFs(o.After, ids)
-	if !ok1 || !ok2 {
-		return
+	for k := range o.After {
+		if _, ok := o.Before[k]; !ok {
+			same = false
+		}
 	}
 	op := map[string]string{"rm": "OpRm", "clean": "OpClean", "gc": "OpGc"}[opClass(sc.Op)]
 	pats := effectivePatterns(sc)
@@ -496,17 +579,16 @@ func emitCase(r *h.Run, sc scenario, o *outcome) {
 		pts[i] = h.Str(p)
 	}
 	var olds []string
-	for _, e := range sc.Entries {
-		if e.Kind == "f" && e.Old {
-			olds = append(olds, coqPath(e.Path))
+	if sc.GC == "mixed" {
+		for _, e := range sc.Entries {
+			if e.Kind == "f" && e.Old {
+				olds = append(olds, in.path(e.Path))
+			}
 		}
 	}
-	gcAll, gcNone := sc.GC == "all", sc.GC == "none"
-	if gcNone {
-		olds = nil
-	}
-	r.Case(fmt.Sprintf("(mkCase %s %s %s %s %s %s %s %s %s)", fb, coqPath(sc.Root), op, h.List(pts),
-		h.Bool(sc.Cancelled && usesCtx(sc.Op)), h.List(olds), h.Bool(gcAll), h.Bool(o.ErrNil), fa), sc)
+	term := fmt.Sprintf("mkCase %s %s %s %s %s %s %s %s %s %s", h.List(ts), in.path(sc.Root), op, h.List(pts),
+		h.Bool(sc.Cancelled && usesCtx(sc.Op)), h.List(olds), h.Bool(sc.GC == "all"), h.Bool(o.ErrNil), h.List(removed), h.Bool(same))
+	r.Case(in.wrap(term), sc)
 }
 
 func runScenario(r *h.Run, sc scenario, emit bool) {
@@ -631,6 +713,9 @@ func corpus() []scenario {
 			out = append(out, scenario{Entries: es, Root: "tree", Op: "RemoveWithContextAndExclusionPatterns", Patterns: []string{"lnk"}})
 			out = append(out, scenario{Entries: es, Root: "tree", Op: "CleanDirWithContextAndExclusionPatterns", Patterns: []string{"KEEP", ""}})
 			out = append(out, scenario{Entries: es, Root: "tree", Op: "RemoveWithContext", Cancelled: true})
+			out = append(out, scenario{Entries: es, Root: "tree/sub/lnk", Op: "RemoveWithContext", Cancelled: true}) // a cancelled removal of a link removes nothing
+			out = append(out, scenario{Entries: es, Root: "tree/sub/lnk", Op: "RemoveWithContextAndExclusionPatterns", Patterns: []string{"lnk"}})
+			out = append(out, scenario{Entries: es, Root: "tree/sub", Op: "CleanDirWithContextAndExclusionPatterns", Patterns: []string{"b"}})
 		}
 	}
 	// mutual loop, link chain, links only, empty tree, missing root, file root
@@ -849,7 +934,7 @@ func main() {
 	for _, sc := range corpus() {
 		runScenario(r, sc, true)
 	}
-	n := r.N(900, 9000)
+	n := r.N(900, 4000)
 	nCases := r.N(650, 2500)
 	for i := 0; i < n; i++ {
 		runScenario(r, gen(r, i%3 == 2), r.NCases() < nCases+len(corpus()))
